@@ -707,7 +707,7 @@ impl Vrps {
                                     "Restarted run failed again. Aborting."
                                 );
                             }
-                            if engine.sanitize().is_ok() {
+                            else if engine.sanitize().is_ok() {
                                 once = true;
                                 continue
                             }
